@@ -12,14 +12,14 @@ import CpProps.C18a
   live code, regenerated on every run with the name-match mode of every component PROBED (`_check_name` called on
   respelled names).  `Cp.Spec.TextRfc.nameRules` is what the governing RFCs say about the case of those names.
 
-  1. table obligations (regenerated data, `decide`): where the code is stricter than the RFC — EXACTLY the known
-     deviations; every component has a written rule; the code is nowhere laxer than a case-sensitive grammar; the list
+  1. table obligations (regenerated data, `decide`): the code is nowhere stricter than the RFC; every component has a
+     written rule; the code is nowhere laxer than a case-sensitive grammar; the list
      separators are not whitespace; which classes match every name case-insensitively; positional components come first
   2. whitespace and empty elements (every table): through the scanner theorems of the scanner layer
   3. the canonical spelling parses to the pairs it spells
   4. order of the elements, unknown directives: facts about name-keyed matching
   5. case of names, for the classes whose components all match case-insensitively
-  6. the full statement, kept as a `Prop`, and what of it is proved
+  6. the full statement: a THEOREM for the nine classes without a positional component; false (witness) for the two with one
 -/
 namespace Cp.C18
 open Cp Cp.Text Cp.Gen Cp.Spec.TextRfc
@@ -40,17 +40,12 @@ def deviations (bad : MatchMode → NameCase → Bool) : List (String × String)
     | some r => if bad c.mode r.rule then some (t.cls, c.name) else none
     | none => none
 
-/-- MATCHES THE RFCs, EXCEPT.  The components whose live name test is stricter than the governing RFC are exactly:
-the `charset` and `boundary` parameters of Content-Type (RFC 7231 §3.1.1.1: parameter names are case-insensitive) and the
-`Expires`, `Domain`, `Path`, `SameSite` attributes of Set-Cookie (RFC 6265 §5.2.1–§5.2.4, 6265bis §5.6.7:
-"case-insensitively matches").  `Charset=utf-8` and `domain=example.com` are dropped silently.  A change of any
-component's `_check_name` changes the regenerated table and breaks this obligation. -/
-theorem matches_rfc_except :
-    deviations stricter =
-      [("HttpHeaderFieldValueContentType", "charset"), ("HttpHeaderFieldValueContentType", "boundary"),
-       ("HttpHeaderFieldValueSetCookieParams", "expires"), ("HttpHeaderFieldValueSetCookieParams", "Domain"),
-       ("HttpHeaderFieldValueSetCookieParams", "Path"), ("HttpHeaderFieldValueSetCookieParams", "SameSite")] := by
-  decide +kernel
+/-- MATCHES THE RFCs.  No component of the live table compares a name more strictly than its governing RFC: the list
+of (class, name) with an exact comparison where the RFC says case-insensitive is EMPTY.  (Until the repairs cfc377c and
+bf135a2 it held the `charset`/`boundary` parameters of Content-Type and the `Expires`/`Domain`/`Path`/`SameSite`
+attributes of Set-Cookie: `Charset=utf-8` and `domain=example.com` were dropped silently.)  A change of any component's
+`_check_name` changes the regenerated table and breaks this obligation. -/
+theorem matches_rfc : deviations stricter = [] := by decide +kernel
 
 /-- the code is nowhere LAXER than a case-sensitive grammar (DMARC: RFC 6376 §3.2; MTA-STS, TLSRPT: `%s"…"`) -/
 theorem not_laxer_than_rfc : deviations laxer = [] := by decide +kernel
@@ -68,8 +63,8 @@ theorem separators_are_not_whitespace : fieldTables.all (fun t => !fieldWs.conta
 /-- the classes all of whose components are matched case-insensitively (`fields_case_invariant` applies to them) -/
 theorem case_free_classes :
     (fieldTables.filter fun t => t.comps.all fun c => c.mode == .caseInsensitive).map (·.cls) =
-      ["HttpHeaderFieldValueCacheControlResponse", "HttpHeaderFieldValueExpectCT", "HttpHeaderFieldValueSTS",
-       "HttpHeaderFieldValueExpectStaple", "HttpHeaderFieldValuePublicKeyPinning"] := by
+      ["HttpHeaderFieldValueCacheControlResponse", "HttpHeaderFieldValueExpectCT", "HttpHeaderFieldValueExpectStaple",
+       "HttpHeaderFieldValuePublicKeyPinning", "HttpHeaderFieldValueSTS", "HttpHeaderFieldValueSetCookieParams"] := by
   decide +kernel
 
 /-- positional components (their `_check_name` accepts ANY name: the media type of Content-Type, the state of
@@ -227,49 +222,303 @@ theorem fields_case_invariant (T : FieldTable) (hci : ∀ c ∈ T.comps, c.mode 
   revert this
   cases runComps T.comps ps <;> cases runComps T.comps (ps.map (respell f)) <;> simp [SameRespelled, SameSlotsRespelled]
 
-/-- the case theorem applies to HSTS, Expect-CT, Expect-Staple, HPKP and Cache-Control as they are in the live code -/
+/-- the case theorem applies to HSTS, Expect-CT, Expect-Staple, HPKP, Cache-Control and the Set-Cookie attributes as they
+are in the live code -/
 theorem case_free_tables_are_case_free :
     ∀ T ∈ fieldTables, T.cls ∈ ["HttpHeaderFieldValueCacheControlResponse", "HttpHeaderFieldValueExpectCT",
-        "HttpHeaderFieldValueSTS", "HttpHeaderFieldValueExpectStaple", "HttpHeaderFieldValuePublicKeyPinning"] →
+        "HttpHeaderFieldValueSTS", "HttpHeaderFieldValueExpectStaple", "HttpHeaderFieldValuePublicKeyPinning",
+        "HttpHeaderFieldValueSetCookieParams"] →
       ∀ c ∈ T.comps, c.mode = .caseInsensitive := by
   decide +kernel
 
 /-! ## 6. the full statement -/
 
-/-- the spellings of a list of clean elements `items` for table `T`: the canonical one; whitespace / empty-element
-edits; any order of the elements behind the positional ones; additional elements no component accepts; another case
-pattern for a name whose component the RFC declares case-insensitive -/
-inductive Variants (T : FieldTable) (rfcInsensitive : FieldComp → Bool) : List Bytes → Bytes → Prop
-  | canonical (items : List Bytes) : Variants T rfcInsensitive items (List.intercalate [T.sep, 0x20] items)
-  | ws {items : List Bytes} {σ σ' : Bytes} : Variants T rfcInsensitive items σ → WsVariant T.sep σ σ' →
-      Variants T rfcInsensitive items σ'
-  | order {items items' : List Bytes} {σ : Bytes} : items'.Perm items → Variants T rfcInsensitive items' σ →
-      Variants T rfcInsensitive items σ
+/-- the canonical spelling `compose()` writes: elements joined by the separator and one SP -/
+def spell (T : FieldTable) (items : List Bytes) : Bytes := List.intercalate [T.sep, 0x20] items
+
+/-- lower-cased directive names of the elements -/
+def lowerNames (items : List Bytes) : List Bytes := items.map fun i => asciiLower (nameValue i).1
+
+/-- the governing RFC declares the name of this component case-insensitive (`CpSpec/TextRfc.lean`) -/
+def rfcInsensitive (T : FieldTable) (c : FieldComp) : Bool :=
+  match ruleFor T.cls c.name.toLower with
+  | some r => r.rule == .insensitive
+  | none => false
+
+/-- THE FAMILY OF SPELLINGS of a list of clean elements `items` for table `T`:
+* the canonical one;
+* any sequence of whitespace / empty-element edits of a spelling (`WsVariant`);
+* the elements in any other order;
+* an additional element no component accepts (an unknown directive), whose name is not yet there;
+* another case pattern of a name that belongs (case-insensitively) to a component the RFC declares case-insensitive. -/
+inductive Variants (T : FieldTable) : List Bytes → Bytes → Prop
+  | canonical (items : List Bytes) : Variants T items (spell T items)
+  | ws {items : List Bytes} {σ σ' : Bytes} : Variants T items σ → WsVariant T.sep σ σ' → Variants T items σ'
+  | order {items items' : List Bytes} {σ : Bytes} : items'.Perm items → Variants T items' σ → Variants T items σ
   | unknown {items : List Bytes} {σ : Bytes} (u : Bytes) : Clean T.sep u →
-      (∀ c ∈ T.comps, matchesComp c (nameValue u) = false) → Variants T rfcInsensitive (items ++ [u]) σ →
-      Variants T rfcInsensitive items σ
-  | recase {pre post : List Bytes} {σ : Bytes} (i i' : Bytes) (c : FieldComp) : c ∈ T.comps → rfcInsensitive c = true →
+      (∀ c ∈ T.comps, matchesComp c (nameValue u) = false) → asciiLower (nameValue u).1 ∉ lowerNames items →
+      Variants T (items ++ [u]) σ → Variants T items σ
+  | recase {pre post : List Bytes} {σ : Bytes} (i i' : Bytes) (c : FieldComp) : c ∈ T.comps → rfcInsensitive T c = true →
       matchesComp { c with mode := .caseInsensitive } (nameValue i) = true →
       asciiLower (nameValue i').1 = asciiLower (nameValue i).1 → (nameValue i').2 = (nameValue i).2 → Clean T.sep i' →
-      Variants T rfcInsensitive (pre ++ i' :: post) σ → Variants T rfcInsensitive (pre ++ i :: post) σ
+      Variants T (pre ++ i' :: post) σ → Variants T (pre ++ i :: post) σ
 
-/-- THE FULL STATEMENT of the header layer: for every class of the live table, every spelling in `Variants` of a list
-of clean elements with pairwise different names (up to case) is handed to the components like the canonical spelling.
-NOT proved in this generality, and FALSE today for Content-Type and Set-Cookie (`matches_rfc_except`: their `charset`,
-`boundary`, `Expires`, `Domain`, `Path`, `SameSite` components compare exactly) and for the positional first element.
-Proved parts: `fields_ws_invariant` (the `ws` constructor, every class), `fields_canonical`,
-`fields_order_unknown_invariant` (`order` and `unknown`, every class, elements spelled once), `fields_case_invariant`
-(`recase`, the five classes of `case_free_classes`). -/
-def fields_spelling_invariant_full : Prop :=
-  ∀ T ∈ fieldTables, ∀ (rfc : FieldComp → Bool) (items : List Bytes) (σ : Bytes),
-    (∀ i ∈ items, Clean T.sep i) → ((items.map fun i => asciiLower (nameValue i).1).Nodup) →
-    Variants T rfc items σ →
-    ∃ e, SameSlots e (parseFields T (List.intercalate [T.sep, 0x20] items)) (parseFields T σ)
+/-- the statement for one table: every spelling in the family of clean elements with pairwise different names (up to
+case) hands every component the same text as the canonical spelling (or fails with the same error) -/
+def FullFor (T : FieldTable) : Prop :=
+  ∀ (items : List Bytes) (σ : Bytes), (∀ i ∈ items, Clean T.sep i) → (lowerNames items).Nodup → Variants T items σ →
+    (parseFields T σ).map (·.slots) = (parseFields T (spell T items)).map (·.slots)
 
-/-- the part of the full statement that is about whitespace and empty elements only, for every live class -/
+/-- THE FULL STATEMENT of the header layer, for every class of the live table.  FALSE as it stands
+(`fields_spelling_invariant_full_fails`): the first element of Content-Type (the media type) and of X-XSS-Protection (the
+state) is POSITIONAL and `Variants.order` moves it.  TRUE for the other nine classes: `fields_spelling_invariant`. -/
+def fields_spelling_invariant_full : Prop := ∀ T ∈ fieldTables, FullFor T
+
+theorem wsVariant_trans {sep : UInt8} {a b c : Bytes} (h1 : WsVariant sep a b) (h2 : WsVariant sep b c) :
+    WsVariant sep a c := by
+  induction h2 with
+  | refl => exact h1
+  | step _ e ih => exact .step ih e
+  | unstep _ e ih => exact .unstep ih e
+
+/-- `items'` spells the pairs of `items`, names respelled case-only (only if the class compares every name
+case-insensitively), in some order, plus unknown pairs -/
+def Rel (T : FieldTable) (items items' : List Bytes) : Prop :=
+  ∃ (f : Bytes → Bytes) (e : List Pair), (∀ k, asciiLower (f k) = asciiLower k) ∧
+    ((∀ c ∈ T.comps, c.mode = .caseInsensitive) ∨ f = id) ∧
+    (items'.map nameValue).Perm ((items.map nameValue).map (respell f) ++ e) ∧ Unmatched T.comps e
+
+theorem Rel.refl (T : FieldTable) (items : List Bytes) : Rel T items items :=
+  ⟨id, [], fun _ => rfl, Or.inr rfl, by rw [map_respell_id, List.append_nil], fun _ h => by cases h⟩
+
+theorem Rel.trans {T : FieldTable} {a b c : List Bytes} (h1 : Rel T a b) (h2 : Rel T b c) : Rel T a c := by
+  obtain ⟨f1, e1, hf1, hm1, hp1, hu1⟩ := h1
+  obtain ⟨f2, e2, hf2, hm2, hp2, hu2⟩ := h2
+  refine ⟨f2 ∘ f1, e1.map (respell f2) ++ e2, fun k => by simp [hf2, hf1], ?_, ?_, ?_⟩
+  · rcases hm1 with h | h
+    · exact Or.inl h
+    · rcases hm2 with h' | h'
+      · exact Or.inl h'
+      · exact Or.inr (by rw [h, h']; rfl)
+  · have h3 : ((b.map nameValue).map (respell f2)).Perm
+        (((a.map nameValue).map (respell f1)).map (respell f2) ++ e1.map (respell f2)) := by
+      have := hp1.map (respell f2)
+      rwa [List.map_append] at this
+    have h4 : ((a.map nameValue).map (respell f1)).map (respell f2) = (a.map nameValue).map (respell (f2 ∘ f1)) := by
+      rw [List.map_map]; rfl
+    rw [h4] at h3
+    have := hp2.trans (h3.append_right e2)
+    rwa [List.append_assoc] at this
+  · intro p hp c hc
+    rcases List.mem_append.mp hp with hp | hp
+    · obtain ⟨q, hq, rfl⟩ := List.mem_map.mp hp
+      rcases hm2 with h | h
+      · rw [matchesComp_respell c (h c hc) f2 hf2]; exact hu1 q hq c hc
+      · rw [h, respell_id]; exact hu1 q hq c hc
+    · exact hu2 p hp c hc
+
+/-- every case-insensitive name of the RFC is compared case-insensitively by EVERY component of the class, or the class
+has no such name at all: the two situations in which `Variants.recase` cannot change what is matched -/
+def RecaseOk (T : FieldTable) : Prop :=
+  (∀ c ∈ T.comps, c.mode = .caseInsensitive) ∨ (∀ c ∈ T.comps, rfcInsensitive T c = false)
+
+theorem nodup_middle {α : Type} {l1 l2 : List α} {a : α} (h : (l1 ++ a :: l2).Nodup) :
+    (∀ x ∈ l1, x ≠ a) ∧ (∀ x ∈ l2, x ≠ a) := by
+  rw [List.nodup_append] at h
+  refine ⟨fun x hx => h.2.2 x hx a (by simp), fun x hx hxa => ?_⟩
+  have := (List.nodup_cons.mp h.2.1).1
+  exact this (hxa ▸ hx)
+
+/-- every spelling of the family is a whitespace variant of the canonical spelling of clean elements `items'` that
+carry the same pairs up to order, case and unknown pairs -/
+theorem variants_reduce (T : FieldTable) (hre : RecaseOk T) {items : List Bytes} {σ : Bytes} (h : Variants T items σ) :
+    (∀ i ∈ items, Clean T.sep i) → (lowerNames items).Nodup →
+      ∃ items', (∀ i ∈ items', Clean T.sep i) ∧ (lowerNames items').Nodup ∧ WsVariant T.sep (spell T items') σ ∧
+        Rel T items items' := by
+  induction h with
+  | canonical items => exact fun hc hn => ⟨items, hc, hn, .refl _, Rel.refl T items⟩
+  | ws _ w ih =>
+    intro hc hn
+    obtain ⟨items', hc', hn', hw, hr⟩ := ih hc hn
+    exact ⟨items', hc', hn', wsVariant_trans hw w, hr⟩
+  | @order items items' σ hp _ ih =>
+    intro hc hn
+    have hc1 : ∀ i ∈ items', Clean T.sep i := fun i hi => hc i (hp.mem_iff.mp hi)
+    have hn1 : (lowerNames items').Nodup := ((hp.map _).nodup_iff).mpr hn
+    obtain ⟨items'', hc'', hn'', hw, hr⟩ := ih hc1 hn1
+    refine ⟨items'', hc'', hn'', hw, Rel.trans ⟨id, [], fun _ => rfl, Or.inr rfl, ?_, fun _ h => by cases h⟩ hr⟩
+    rw [map_respell_id, List.append_nil]
+    exact hp.map nameValue
+  | @unknown items σ u hu hun hfresh _ ih =>
+    intro hc hn
+    have hc1 : ∀ i ∈ items ++ [u], Clean T.sep i := by
+      intro i hi
+      rcases List.mem_append.mp hi with h | h
+      · exact hc i h
+      · rw [List.mem_singleton.mp h]; exact hu
+    have hn1 : (lowerNames (items ++ [u])).Nodup := by
+      unfold lowerNames at hn hfresh ⊢
+      rw [List.map_append, List.nodup_append]
+      refine ⟨hn, by simp, ?_⟩
+      intro a ha b hb hab
+      simp only [List.map_cons, List.map_nil, List.mem_singleton] at hb
+      exact hfresh (hb ▸ hab ▸ ha)
+    obtain ⟨items'', hc'', hn'', hw, hr⟩ := ih hc1 hn1
+    refine ⟨items'', hc'', hn'', hw, Rel.trans ⟨id, [nameValue u], fun _ => rfl, Or.inr rfl, ?_, ?_⟩ hr⟩
+    · rw [map_respell_id, List.map_append]; exact List.Perm.refl _
+    · intro p hp c hc'
+      rw [List.mem_singleton.mp hp]; exact hun c hc'
+  | @recase pre post σ i i' c hcm hrfc _ hlow hval hci' _ ih =>
+    intro hc hn
+    have hall : ∀ c ∈ T.comps, c.mode = .caseInsensitive := by
+      rcases hre with h | h
+      · exact h
+      · rw [h c hcm] at hrfc; cases hrfc
+    have hc1 : ∀ j ∈ pre ++ i' :: post, Clean T.sep j := by
+      intro j hj
+      rcases List.mem_append.mp hj with h | h
+      · exact hc j (List.mem_append_left _ h)
+      · rcases List.mem_cons.mp h with h | h
+        · rw [h]; exact hci'
+        · exact hc j (List.mem_append_right _ (List.mem_cons_of_mem _ h))
+    have hln : lowerNames (pre ++ i' :: post) = lowerNames (pre ++ i :: post) := by
+      simp [lowerNames, hlow]
+    have hn1 : (lowerNames (pre ++ i' :: post)).Nodup := by rw [hln]; exact hn
+    obtain ⟨items'', hc'', hn'', hw, hr⟩ := ih hc1 hn1
+    refine ⟨items'', hc'', hn'', hw, Rel.trans ?_ hr⟩
+    -- the respelling: the name of `i` becomes the name of `i'`, every other name stays
+    refine ⟨fun k => if k = (nameValue i).1 then (nameValue i').1 else k, [], ?_, Or.inl hall, ?_, fun _ h => by cases h⟩
+    · intro k
+      by_cases hk : k = (nameValue i).1
+      · simp [hk, hlow]
+      · simp [hk]
+    · have hmid := nodup_middle (a := asciiLower (nameValue i).1) (l1 := lowerNames pre) (l2 := lowerNames post)
+        (by simpa [lowerNames] using hn)
+      have hother : ∀ j, asciiLower (nameValue j).1 ≠ asciiLower (nameValue i).1 →
+          respell (fun k => if k = (nameValue i).1 then (nameValue i').1 else k) (nameValue j) = nameValue j := by
+        intro j hj
+        have : (nameValue j).1 ≠ (nameValue i).1 := fun h => hj (by rw [h])
+        simp [respell, this]
+      have hpre : (pre.map nameValue).map (respell fun k => if k = (nameValue i).1 then (nameValue i').1 else k) =
+          pre.map nameValue := by
+        rw [List.map_map]
+        apply List.map_congr_left
+        intro j hj
+        exact hother j (hmid.1 _ (List.mem_map.mpr ⟨j, hj, rfl⟩))
+      have hpost : (post.map nameValue).map (respell fun k => if k = (nameValue i).1 then (nameValue i').1 else k) =
+          post.map nameValue := by
+        rw [List.map_map]
+        apply List.map_congr_left
+        intro j hj
+        exact hother j (hmid.2 _ (List.mem_map.mpr ⟨j, hj, rfl⟩))
+      have hi : respell (fun k => if k = (nameValue i).1 then (nameValue i').1 else k) (nameValue i) = nameValue i' := by
+        simp [respell, ← hval]
+      simp only [List.map_append, List.map_cons, List.append_nil, hpre, hpost, hi]
+      exact List.Perm.refl _
+
+/-- THE FULL STATEMENT, PROVED for every table without a positional component in which `recase` cannot change what is
+matched (`RecaseOk`): whitespace runs and empty elements, any order, unknown directives and other case patterns — in
+any combination — hand every component the same text as the canonical spelling. -/
+theorem fields_spelling_invariant (T : FieldTable) (hsep : T.sep ∉ fieldWs) (hno : ∀ c ∈ T.comps, c.mode ≠ .anyName)
+    (hre : RecaseOk T) : FullFor T := by
+  intro items σ hc hn hv
+  obtain ⟨items', hc', hn', hw, f, e, hf, hm, hp, hu⟩ := variants_reduce T hre hv hc hn
+  have hwsp : ∀ x ∈ ([0x20] : Bytes), x ∈ fieldWs := by decide
+  rw [fields_ws_invariant T hsep hw]
+  unfold spell
+  rw [fields_canonical T hsep [0x20] hwsp items' hc', fields_canonical T hsep [0x20] hwsp items hc]
+  refine parsePairs_variant T hno _ _ e f hf hm hp hu ?_
+  rw [List.map_map]
+  exact hn'
+
+/-- the side conditions as a decidable check of a table -/
+def fullOk (T : FieldTable) : Bool :=
+  !fieldWs.contains T.sep && T.comps.all (fun c => c.mode != .anyName) &&
+    (T.comps.all (fun c => c.mode == .caseInsensitive) || T.comps.all (fun c => !rfcInsensitive T c))
+
+theorem fullFor_of_fullOk (T : FieldTable) (h : fullOk T = true) : FullFor T := by
+  simp only [fullOk, Bool.and_eq_true, Bool.or_eq_true, List.all_eq_true, Bool.not_eq_true', bne_iff_ne, ne_eq,
+    beq_iff_eq] at h
+  refine fields_spelling_invariant T (by simpa using h.1.1) h.1.2 ?_
+  rcases h.2 with h' | h'
+  · exact Or.inl h'
+  · exact Or.inr h'
+
+/-- the classes of the live table that satisfy the side conditions: all but the two with a positional first element -/
+theorem full_statement_classes :
+    (fieldTables.filter fullOk).map (·.cls) =
+      ["DnsRecordTxtValueDmarc", "DnsRecordTxtValueMtaSts", "DnsRecordTxtValueTlsRpt",
+       "HttpHeaderFieldValueCacheControlResponse", "HttpHeaderFieldValueExpectCT", "HttpHeaderFieldValueExpectStaple",
+       "HttpHeaderFieldValuePublicKeyPinning", "HttpHeaderFieldValueSTS", "HttpHeaderFieldValueSetCookieParams"] := by
+  decide +kernel
+
+/-- THE FULL STATEMENT FOR THE LIVE CODE: every class of the regenerated table except the two with a positional first
+element — Cache-Control, Expect-CT, HSTS, Expect-Staple, HPKP, the Set-Cookie attribute list, DMARC, MTA-STS, TLSRPT. -/
+theorem fields_spelling_invariant_live (T : FieldTable) (hT : T ∈ fieldTables)
+    (h1 : T.cls ≠ "HttpHeaderFieldValueContentType") (h2 : T.cls ≠ "HttpHeaderFieldValueXXSSProtection") : FullFor T := by
+  have hall : fieldTables.all (fun T => T.cls == "HttpHeaderFieldValueContentType" ||
+      T.cls == "HttpHeaderFieldValueXXSSProtection" || fullOk T) = true := by decide +kernel
+  rw [List.all_eq_true] at hall
+  have := hall T hT
+  simp only [Bool.or_eq_true, beq_iff_eq] at this
+  rcases this with (h | h) | h
+  · exact absurd h h1
+  · exact absurd h h2
+  · exact fullFor_of_fullOk T h
+
+/-- Content-Type as it is in the live table -/
+def ctTable : FieldTable :=
+  ⟨"HttpHeaderFieldValueContentType", 59,
+    [⟨"mime_type", "", .mimeType, false, .anyName⟩,
+     ⟨"charset", "charset", .string, true, .caseInsensitive⟩,
+     ⟨"boundary", "boundary", .string, true, .caseInsensitive⟩], none⟩
+
+/-- X-XSS-Protection as it is in the live table -/
+def xssTable : FieldTable :=
+  ⟨"HttpHeaderFieldValueXXSSProtection", 59,
+    [⟨"state", "", .stringEnumOption, false, .anyName⟩,
+     ⟨"mode", "mode", .stringEnum, true, .exact⟩,
+     ⟨"report", "report", .string, true, .caseInsensitive⟩], none⟩
+
+theorem clean_of_check (sep : UInt8) (i : Bytes)
+    (h : (!i.contains sep && (trim fieldWs i == i) && !i.isEmpty && isAscii i) = true) : Clean sep i := by
+  simp only [Bool.and_eq_true, Bool.not_eq_true', beq_iff_eq] at h
+  refine ⟨?_, h.1.1.2, ?_, h.2⟩
+  · intro hm; have := h.1.1.1; simp [hm] at this
+  · intro he; have := h.1.2; simp [he] at this
+
+/-- WITNESS that the full statement is false for a positional first element: `t/h; charset=u` and `charset=u; t/h`
+are related by `Variants.order`, but the second hands `charset=u` to the media-type component.  Same for
+X-XSS-Protection (`1; mode=b` / `mode=b; 1`). -/
+theorem positional_first_is_order_sensitive :
+    ctTable ∈ fieldTables ∧ ¬ FullFor ctTable ∧ xssTable ∈ fieldTables ∧ ¬ FullFor xssTable := by
+  refine ⟨by decide +kernel, ?_, by decide +kernel, ?_⟩
+  · intro h
+    have := h [[0x74, 0x2f, 0x68], [0x63, 0x68, 0x61, 0x72, 0x73, 0x65, 0x74, 0x3d, 0x75]]
+      (spell ctTable [[0x63, 0x68, 0x61, 0x72, 0x73, 0x65, 0x74, 0x3d, 0x75], [0x74, 0x2f, 0x68]])
+      (by intro i hi; simp only [List.mem_cons, List.mem_nil_iff, or_false] at hi
+          rcases hi with rfl | rfl <;> exact clean_of_check _ _ (by decide))
+      (by decide +kernel)
+      (.order (List.Perm.swap _ _ _) (.canonical _))
+    revert this
+    decide +kernel
+  · intro h
+    have := h [[0x31], [0x6d, 0x6f, 0x64, 0x65, 0x3d, 0x62]]
+      (spell xssTable [[0x6d, 0x6f, 0x64, 0x65, 0x3d, 0x62], [0x31]])
+      (by intro i hi; simp only [List.mem_cons, List.mem_nil_iff, or_false] at hi
+          rcases hi with rfl | rfl <;> exact clean_of_check _ _ (by decide))
+      (by decide +kernel)
+      (.order (List.Perm.swap _ _ _) (.canonical _))
+    revert this
+    decide +kernel
+
+/-- hence the statement over ALL live classes is false -/
+theorem fields_spelling_invariant_full_fails : ¬ fields_spelling_invariant_full :=
+  fun h => positional_first_is_order_sensitive.2.1 (h ctTable positional_first_is_order_sensitive.1)
+
+/-- what holds for the two positional classes (and every other one): whitespace and empty elements -/
 theorem fields_spelling_invariant_partial (T : FieldTable) (hT : T ∈ fieldTables) (items : List Bytes) {σ : Bytes}
-    (h : WsVariant T.sep (List.intercalate [T.sep, 0x20] items) σ) :
-    parseFields T σ = parseFields T (List.intercalate [T.sep, 0x20] items) := by
+    (h : WsVariant T.sep (spell T items) σ) : parseFields T σ = parseFields T (spell T items) := by
   have hall := separators_are_not_whitespace
   rw [List.all_eq_true] at hall
   have hsep : T.sep ∉ fieldWs := by
@@ -299,16 +548,17 @@ example : parseFields stsTable
     .ok ⟨[.value [0x31], .flag, .absent], [([0x78], some [0x79])]⟩ := by decide +kernel
 -- a mandatory directive missing: InvalidValue
 example : parseFields stsTable [0x70, 0x72, 0x65, 0x6c, 0x6f, 0x61, 0x64] = .error .invalidValue := by decide +kernel
--- the deviation is real in the model: `Charset=utf-8` leaves the charset component at its default …
+-- after the repair cfc377c the live Content-Type table hands `Charset=u` to the charset component, like `charset=u`
 example : (fieldTables.find? (·.cls == "HttpHeaderFieldValueContentType")).map
     (fun T => parseFields T [0x74, 0x2f, 0x68, 0x3b, 0x43, 0x68, 0x61, 0x72, 0x73, 0x65, 0x74, 0x3d, 0x75]) =
-    some (.ok ⟨[.value [0x74, 0x2f, 0x68], .absent, .absent], [([0x43, 0x68, 0x61, 0x72, 0x73, 0x65, 0x74], some [0x75])]⟩) := by
+    some (.ok ⟨[.value [0x74, 0x2f, 0x68], .value [0x75], .absent], []⟩) := by
   decide +kernel
--- … while `charset=u` fills it
 example : (fieldTables.find? (·.cls == "HttpHeaderFieldValueContentType")).map
     (fun T => parseFields T [0x74, 0x2f, 0x68, 0x3b, 0x63, 0x68, 0x61, 0x72, 0x73, 0x65, 0x74, 0x3d, 0x75]) =
     some (.ok ⟨[.value [0x74, 0x2f, 0x68], .value [0x75], .absent], []⟩) := by
   decide +kernel
+-- whitespace around "=" is not part of the name or the value (repair 1356c66): `a = "x"`
+example : nameValue [0x61, 0x20, 0x3d, 0x09, 0x22, 0x78, 0x22] = ([0x61], some [0x78]) := by decide
 -- NameValuePair: quotes are stripped, a run of "=" is one separator, a later duplicate overwrites in place
 example : nameValue [0x61, 0x3d, 0x22, 0x78, 0x22] = ([0x61], some [0x78]) := by decide
 example : nameValue [0x61, 0x3d, 0x3d, 0x62, 0x3d, 0x63] = ([0x61], some [0x62, 0x3d, 0x63]) := by decide
